@@ -50,7 +50,7 @@ OUTER:
 		used := 0
 		for end < len(orig) && used < s.fragmentSize {
 			r, size := utf8.DecodeRune(orig[end:])
-			if r == utf8.RuneError {
+			if r == utf8.RuneError && size <= 1 {
 				continue OUTER // bail
 			}
 			end += size
@@ -67,7 +67,7 @@ OUTER:
 				continue OUTER
 			}
 			r, size := utf8.DecodeLastRune(orig[0:start])
-			if r == utf8.RuneError {
+			if r == utf8.RuneError && size <= 1 {
 				continue OUTER // bail
 			}
 			if start-size >= maxbegin {
@@ -106,13 +106,13 @@ OUTER:
 
 		for offset > 0 {
 			r, size := utf8.DecodeLastRune(orig[0:start])
-			if r == utf8.RuneError {
+			if r == utf8.RuneError && size <= 1 {
 				continue OUTER // bail
 			}
 			start -= size
 
 			r, size = utf8.DecodeLastRune(orig[0:end])
-			if r == utf8.RuneError {
+			if r == utf8.RuneError && size <= 1 {
 				continue OUTER // bail
 			}
 			end -= size
